@@ -97,6 +97,20 @@ func verifCheckVisible(visible []string, st []verifFileState, final bool, what s
 	for f := range st {
 		own := verifOwned(visible, f)
 		s := st[f]
+		// classification for the known-findings file, from the event history
+		// only: is another file's latest content invalid (the all-or-nothing
+		// reload then blocks this file too), is this file's own latest content
+		// invalid, or are all files valid?
+		tag := "all-files-valid"
+		if s.invalidNow && !s.removed {
+			tag = "own-latest-version-invalid"
+		}
+		for g := range st {
+			if g != f && st[g].invalidNow && !st[g].removed {
+				tag = "other-file-invalid"
+			}
+		}
+		verifTag(tag)
 		if s.removed || !s.loaded {
 			// nothing of this file may be visible... unless never loaded: nothing either
 			verifAssert(len(own) == 0 || !s.removed, "C19 "+what+": namespaces of a removed file are still visible")
@@ -158,15 +172,6 @@ func HarnessC19OPL() {
 			verifFail("C19: Namespaces() fails")
 			return
 		}
-		// classification for the known-findings file: is some file's latest
-		// content invalid (which blocks the whole reload) or are all valid?
-		tag := "all-files-valid"
-		for _, s := range st {
-			if s.invalidNow && !s.removed {
-				tag = "some-file-invalid"
-			}
-		}
-		verifTag(tag)
 		verifNote("events: " + trace)
 		verifCheckVisible(verifNames(nn), st, step == h-1, "OPL watcher")
 	}
